@@ -2,7 +2,7 @@
 Require Extraction.
 Require Import ExtrOcamlBasic.
 From Coq Require Import ZArith List Bool.
-From V Require Import factory.FacModel factory.FacSpec factory.FacObs factory.FacEq.
+From V Require Import factory.FacModel factory.FacSpec factory.FacObs factory.FacEq factory.FacFixed factory.FacKind.
 Import ListNotations.
 Open Scope Z_scope.
 
@@ -131,6 +131,34 @@ Definition zone_entry (args : list Z) : list Z :=
   | _ => [-1]
   end.
 
+(* fixed-offset zones (hand model FacFixed, proved equal to the regenerated methods):
+   is_utc name okind oval w fold newfold ->
+   offset  utcoffset dst tzname is_ambiguous fromutc.wall fromutc.fold enfold.wall enfold.fold *)
+Definition fixed_entry (args : list Z) : list Z :=
+  match args with
+  | [isutc; name; okind; oval; w; fold; nf] =>
+      let d : dtv := (w, negb (fold =? 0)) in
+      if isutc =? 0 then
+        let z := fx_init name (if okind =? 0 then ONum oval else OTd oval) in
+        [fz_offset z; fx_utcoffset z d; fx_dst z d; fx_tzname z d; b2z (fx_is_ambiguous z d);
+         fst (fx_fromutc z d); b2z (snd (fx_fromutc z d));
+         fst (fx_enfold d (negb (nf =? 0))); b2z (snd (fx_enfold d (negb (nf =? 0))))]
+      else
+        [0; ux_utcoffset d; ux_dst d; ux_tzname d; b2z (ux_is_ambiguous d);
+         fst (ux_fromutc d); b2z (snd (ux_fromutc d));
+         fst (fx_enfold d (negb (nf =? 0))); b2z (snd (fx_enfold d (negb (nf =? 0))))]
+  | _ => [-1]
+  end.
+
+Definition nz (x : Z) : bool := negb (x =? 0).
+Definition kind_entry (args : list Z) : list Z :=
+  match args with
+  | [isnone; a; b; c; d; e; f; g; h; i; j; k; l] =>
+      let fs := mkFacts (nz a) (nz b) (nz c) (nz d) (nz e) (nz f) (nz g) (nz h) (nz i) (nz j) (nz k) (nz l) in
+      [zkind_code (gettz_kind fs); b2z (gettz_caches (nz isnone) (gettz_kind fs))]
+  | _ => [-1]
+  end.
+
 (* 0: run current code; 1: run pre-e7e8908 code; 2: spec on an observed history
    (-> identity, identity ignoring epochs); 3: zone equality table *)
 Definition dispatch (n : Z) (args : list Z) : list Z :=
@@ -140,6 +168,8 @@ Definition dispatch (n : Z) (args : list Z) : list Z :=
   | 2 => let h := take_obs (length args) args in
          [b2z (spec_identity h); b2z (spec_identity_strict h)]
   | 3 => zone_entry args
+  | 4 => fixed_entry args
+  | 5 => kind_entry args
   | _ => [-1]
   end.
 
